@@ -520,6 +520,17 @@ func runC10(c *Ctx) {
 			}
 		}
 	}
+	// which scheme is preferred depends on the list alone (https whenever it is among several): selectScheme reads no
+	// state of the transport (host, port, TLS settings)
+	if ss := p.FnOpt("(*rt/client.Runtime).selectScheme"); ss != nil && len(ss.Params) > 0 && ss.Signature.Recv() != nil {
+		for _, in := range instrs(ss) {
+			if fa, ok := in.(*ssa.FieldAddr); ok && in.Parent() == ss {
+				if okR, _ := allOrigins(fa.X, oIsValue(ss.Params[0])); okR {
+					c.obI("R10.3", fa, "scheme-choice-depends-on-the-list-only", false, "selectScheme decides from the offered schemes alone", "selectScheme reads Runtime."+fieldNameAt(fa))
+				}
+			}
+		}
+	}
 	ps := p.Fn("(*rt/client.Runtime).pickScheme")
 	sels := callsIn(ps, "(*rt/client.Runtime).selectScheme")
 	okPS := len(sels) == 2
